@@ -20,6 +20,10 @@ func init() {
 const tSnapElem = "leveldb.snapshotElement"
 
 func runC03(p *Prog, r *Report) {
+	if want("C03.16") {
+		// (shared with C05) a snapshot read cannot lose its view to a concurrent Release
+		ruleSnapshotReadsUnderLock(p, r, "C03.16")
+	}
 	if want("C03.15") {
 		// buffer lookups honour the view's sequence number (shared with C01)
 		ruleMemGet(p, r, "C03.15")
